@@ -219,6 +219,7 @@ static __thread struct {
 	int u16;
 	int bad;
 } last_disp;
+static __thread int in_restore, silent_calls;
 
 static uint64_t mix64(uint64_t x)
 {
@@ -483,6 +484,8 @@ static void ProcessEvent(lp_id_t me, simtime_t now, unsigned ty, const void *pl,
 {
 	struct lpst *st = vst;
 	last_disp.u16 = -1;
+	if(in_restore)
+		++silent_calls;
 	if(ty == LP_INIT) {
 		st = rs_malloc(sizeof(*st));
 		memset(st, 0, sizeof(*st));
@@ -621,11 +624,14 @@ void verif_hook(unsigned p, uint64_t a, uint64_t b, uint64_t c, uint64_t d)
 				EMIT("\"e\":\"RbBegin\",\"lp\":%d,\"past\":%d", (int)a, (int)b);
 				break;
 			case VP_RESTORE:
+				in_restore = 1;
+				silent_calls = 0;
 				EMIT("\"e\":\"Restore\",\"lp\":%d,\"last\":%d,\"past\":%d,\"size\":%ld", (int)a, (int)b, (int)c,
 				    (long)d);
 				break;
 			case VP_RB_END:
-				emit_state("RbEnd", a, 0, b, c);
+				in_restore = 0;
+				emit_state("RbEnd", a, silent_calls, b, c);
 				break;
 			case VP_EXEC:
 				emit_state("Exec", a, mid_of((void *)b), 0, 0);
@@ -727,6 +733,72 @@ int __wrap_gettimeofday(struct timeval *tv, void *tz)
 	return 0;
 }
 
+/* independent reader of <stats>.bin (layout documented in src/log/stats.c) */
+static void dump_stats(const char *base)
+{
+	char path[1024];
+	snprintf(path, sizeof(path), "%s.bin", base);
+	FILE *f = fopen(path, "rb");
+	if(!f) {
+		fprintf(out, "{\"n\":%lu,\"thr\":-1,\"e\":\"StatsMissing\"}\n", ++seqno);
+		return;
+	}
+	int ok = 1;
+	uint16_t endian;
+	int64_t n;
+	ok &= fread(&endian, 2, 1, f) == 1;
+	ok &= fread(&n, 8, 1, f) == 1;
+	int64_t nstats = n;
+	int idx_proc = -1, idx_rb = -1, idx_und = -1, idx_ck = -1, idx_sil = -1, idx_anti = -1;
+	for(int64_t i = 0; ok && i < nstats && i < 64; ++i) {
+		unsigned char len;
+		char name[256] = {0};
+		ok &= fread(&len, 1, 1, f) == 1;
+		ok &= len == 0 || fread(name, len, 1, f) == 1;
+		if(!strcmp(name, "processed messages")) idx_proc = (int)i;
+		if(!strcmp(name, "rollbacks")) idx_rb = (int)i;
+		if(!strcmp(name, "rolled back messages")) idx_und = (int)i;
+		if(!strcmp(name, "checkpoints")) idx_ck = (int)i;
+		if(!strcmp(name, "silent messages")) idx_sil = (int)i;
+		if(!strcmp(name, "anti messages")) idx_anti = (int)i;
+	}
+	int64_t nodes = 0;
+	ok &= fread(&nodes, 8, 1, f) == 1;
+	uint64_t glob[9] = {0};
+	ok &= fread(glob, sizeof(glob), 1, f) == 1;
+	int64_t nsz = 0;
+	ok &= fread(&nsz, 8, 1, f) == 1;
+	int nnode = (int)(nsz / 16);
+	fprintf(out, "{\"n\":%lu,\"thr\":-1,\"e\":\"StatsHdr\",\"ok\":%d,\"endian\":%u,\"nstats\":%ld,\"nodes\":%ld,\"threads\":%lu,\"lps\":%lu,\"nnode\":%d,"
+	             "\"rem\":%ld,\"names\":%d}\n",
+	    ++seqno, ok, endian, (long)nstats, (long)nodes, (unsigned long)glob[0], (unsigned long)glob[1], nnode, (long)(nsz % 16),
+	    idx_proc >= 0 && idx_rb >= 0 && idx_und >= 0 && idx_ck >= 0 && idx_sil >= 0 && idx_anti >= 0);
+	for(int i = 0; ok && i < nnode; ++i) {
+		double g;
+		uint64_t rss;
+		ok &= fread(&g, 8, 1, f) == 1 && fread(&rss, 8, 1, f) == 1;
+		fprintf(out, "{\"n\":%lu,\"thr\":-1,\"e\":\"StatsNode\",\"k\":%d,\"gvt\":%ld}\n", ++seqno, i + 1, t2i(g));
+	}
+	for(uint64_t t = 0; ok && t < glob[0] && t < 64; ++t) {
+		int64_t tsz = 0;
+		ok &= fread(&tsz, 8, 1, f) == 1;
+		int nrec = (int)(tsz / (8 * nstats));
+		fprintf(out, "{\"n\":%lu,\"thr\":%d,\"e\":\"StatsThrHdr\",\"nrec\":%d,\"rem\":%ld}\n", ++seqno, (int)t, nrec, (long)(tsz % (8 * nstats)));
+		for(int k = 0; ok && k < nrec; ++k) {
+			uint64_t v[64] = {0};
+			ok &= fread(v, 8, (size_t)nstats, f) == (size_t)nstats;
+			fprintf(out, "{\"n\":%lu,\"thr\":%d,\"e\":\"StatsThr\",\"k\":%d,\"proc\":%lu,\"rb\":%lu,\"und\":%lu,\"ck\":%lu,\"sil\":%lu,\"anti\":%lu}\n",
+			    ++seqno, (int)t, k + 1, (unsigned long)v[idx_proc < 0 ? 0 : idx_proc], (unsigned long)v[idx_rb < 0 ? 0 : idx_rb],
+			    (unsigned long)v[idx_und < 0 ? 0 : idx_und], (unsigned long)v[idx_ck < 0 ? 0 : idx_ck], (unsigned long)v[idx_sil < 0 ? 0 : idx_sil],
+			    (unsigned long)v[idx_anti < 0 ? 0 : idx_anti]);
+		}
+	}
+	char extra;
+	int trailing = fread(&extra, 1, 1, f) == 1;
+	fprintf(out, "{\"n\":%lu,\"thr\":-1,\"e\":\"StatsEnd\",\"ok\":%d,\"trailing\":%d}\n", ++seqno, ok, trailing);
+	fclose(f);
+}
+
 static void on_hang(const char *why)
 {
 	if(out) {
@@ -814,6 +886,8 @@ int main(int argc, char **argv)
 	if(RootsimInit(&conf))
 		die("RootsimInit failed");
 	int r = RootsimRun();
+	if(stats)
+		dump_stats(stats);
 	fprintf(out, "{\"n\":%lu,\"thr\":-1,\"e\":\"End\",\"ret\":%d,\"bad\":%d,\"steps\":%lu}\n", ++seqno, r, contract_bad,
 	    vs_steps());
 	fclose(out);
